@@ -9,8 +9,10 @@
 //        discrete = 0: mj_forward, mj_compareFwdInv, mj_inverse at qacc
 //        discrete = 1: mj_step; a_d = (qvel' - qvel)/h; state restored; qacc = a_d; mjENBL_INVDISCRETE; mj_inverse
 //        -> {json}: qfrc_inverse, expected = qfrc_applied + J'xfrc_applied + qfrc_actuator (mj_xfrcAccumulate), efc_force of both sides …
-//   dacc <integrator>                 at the remembered state: mj_forward, then the static mj_discreteAcc on qacc = remembered `warm`
-//        -> "<x hex>*nv | dacc <nv> M*(nv*nv) Mhat*(nv*nv) a_d*nv"   (the part after `|` is the op line of lean/Drivers/C09.lean)
+//   dacc <integrator> <disable-extra> at the remembered state: mj_forward, then the static mj_discreteAcc on qacc = remembered `warm`
+//        -> "<x hex>*nv | dacc <nv> M*(nv*nv) Mhat*(nv*nv) a_d*nv"                                  (implicit)
+//        -> "<x hex>*nv | dacce <disEulerDamp> <disDamper> <anyDamping> <nv> M Mhat a_d"            (Euler; Mhat = M + h*diag(B))
+//           (the part after `|` is the op line of lean/Drivers/C09.lean; the flags are READ from m->opt, the branch decision is the model's)
 #include <math.h>
 #include <setjmp.h>
 #include <stdint.h>
@@ -161,9 +163,10 @@ static void op_fwdinv(char** tok) {
 }
 
 // the matrix mj_discreteAcc multiplies with, from the engine's own arrays
-static void op_dacc(int integrator) {
+static void op_dacc(int integrator, int disable_extra) {
   m->opt = opt0;
   m->opt.integrator = integrator;
+  m->opt.disableflags |= disable_extra;
   m->opt.enableflags &= ~(mjENBL_SLEEP | mjENBL_FWDINV);
   load_state();
   int nv = m->nv;
@@ -174,19 +177,17 @@ static void op_dacc(int integrator) {
   mj_fullM(m, d, M);
   memcpy(d->qacc, ad, 8 * nv);
   mj_discreteAcc(m, d);
+  int dof_damping = 0;
   if (integrator == mjINT_EULER) {
     memcpy(Mhat, M, 8 * (size_t)nv * nv);
-    int dof_damping = 0;
-    if (!mjDISABLED(mjDSBL_EULERDAMP))
-      for (int i = 0; i < nv; i++)
-        if (m->dof_damping[i] > 0 || !mju_isZero(m->dof_dampingpoly + mjNPOLY * i, mjNPOLY) || m->jnt_actuatorid[m->dof_jntid[i]] != -1) dof_damping = 1;
-    if (dof_damping)
-      for (int i = 0; i < nv; i++) {
-        mjtNum poly[mjNPOLY];
-        mju_copy(poly, m->dof_dampingpoly + mjNPOLY * i, mjNPOLY);
-        mjtNum damping = m->dof_damping[i] + mj_actuatorDamping(m, mjOBJ_JOINT, m->dof_jntid[i], poly);
-        Mhat[(size_t)i * nv + i] += m->opt.timestep * mjd_xPolyForce(damping, poly, d->qvel[i], mjNPOLY, 1);
-      }
+    for (int i = 0; i < nv; i++)
+      if (m->dof_damping[i] > 0 || !mju_isZero(m->dof_dampingpoly + mjNPOLY * i, mjNPOLY) || m->jnt_actuatorid[m->dof_jntid[i]] != -1) dof_damping = 1;
+    for (int i = 0; i < nv; i++) {
+      mjtNum poly[mjNPOLY];
+      mju_copy(poly, m->dof_dampingpoly + mjNPOLY * i, mjNPOLY);
+      mjtNum damping = m->dof_damping[i] + mj_actuatorDamping(m, mjOBJ_JOINT, m->dof_jntid[i], poly);
+      Mhat[(size_t)i * nv + i] += m->opt.timestep * mjd_xPolyForce(damping, poly, d->qvel[i], mjNPOLY, 1);
+    }
   } else {
     // implicit: d->qLU = M - h*qDeriv in the D sparsity pattern (left there by mj_discreteAcc)
     for (int i = 0; i < nv; i++)
@@ -194,7 +195,8 @@ static void op_dacc(int integrator) {
         Mhat[(size_t)i * nv + m->D_colind[m->D_rowadr[i] + k]] = d->qLU[m->D_rowadr[i] + k];
   }
   for (int i = 0; i < nv; i++) { if (i) printf(" "); put_hex(d->qacc[i]); }
-  printf(" | dacc %d", nv);
+  if (integrator == mjINT_EULER) printf(" | dacce %d %d %d %d", mjDISABLED(mjDSBL_EULERDAMP) ? 1 : 0, mjDISABLED(mjDSBL_DAMPER) ? 1 : 0, dof_damping, nv);
+  else printf(" | dacc %d", nv);
   for (long i = 0; i < (long)nv * nv; i++) { printf(" "); put_hex(M[i]); }
   for (long i = 0; i < (long)nv * nv; i++) { printf(" "); put_hex(Mhat[i]); }
   for (int i = 0; i < nv; i++) { printf(" "); put_hex(ad[i]); }
@@ -238,7 +240,7 @@ int main(void) {
       }
     } else if (!strcmp(op, "settle") && n == 2) op_settle(atoi(tok[1]));
     else if (!strcmp(op, "fwdinv") && n == 10) op_fwdinv(tok);
-    else if (!strcmp(op, "dacc") && n == 2) op_dacc(atoi(tok[1]));
+    else if (!strcmp(op, "dacc") && n == 3) op_dacc(atoi(tok[1]), atoi(tok[2]));
     else printf("bad-op\n");
     jb_armed = 0;
     fflush(stdout);
